@@ -110,8 +110,9 @@ func (b *Builder) TextShowGlyphs(seq *font.GlyphSeq) float64 {
 			}
 		}
 
+		// the emitted operator keeps the array: start a new one
 		b.emit(content.OpTextShowArray, out)
-		out = out[:0]
+		out = nil
 	}
 
 	xActual := 0.0
